@@ -300,6 +300,30 @@ pub fn drive_builder(a: &Args) {
             }
         }
     }
+    // many labels in one state (9..40), scrambled, with or without one conflicting label: accepted / rejected, no panic
+    for &n in &[9u32, 16, 17, 21, 22, 27, 40] {
+        for conflict in [false, true] {
+            for shuffle in 0..2u64 {
+                let mut adds: Vec<Call> = (0..n).map(|k| Call::Add(0, 10 * k + 5, 10 * k + 8, 1 + k % 2)).collect();
+                if conflict {
+                    let m = n / 2;
+                    adds.push(Call::Add(0, 10 * m + 7, 10 * m + 12, 2 - m % 2));
+                }
+                let mut r2 = Rng::new(a.seed ^ (n as u64 * 977 + shuffle * 31 + conflict as u64));
+                for k in (1..adds.len()).rev() {
+                    let j = r2.below(k as u64 + 1) as usize;
+                    adds.swap(k, j);
+                }
+                let mut calls = vec![Call::New(0)];
+                calls.extend(adds);
+                calls.push(Call::Def(0, 0));
+                calls.push(Call::Def(1, 1));
+                calls.push(Call::Def(2, 0));
+                calls.push(Call::Fin(2));
+                out.emit(builder_record(&calls, ""));
+            }
+        }
+    }
     // many states (6..33): a cycle on the low characters, a self loop on one letter, the default jumps; a few
     // unreachable states; calls in a shuffled order
     for &n in &[6u32, 9, 16, 17, 33] {
